@@ -644,14 +644,21 @@ CHECKS["C12"].update({
              "lines - is printed, at every depth and space/tab indent, as text the lexer model reads as exactly ONE BlockString token whose value is the wrapped "
              "lines joined by line feeds), descWrapOK_extends, wrapped_short_value, and h12_value_differs (finding H12 on the model: the value read back is not "
              "the description); the statement is also evaluated against the real code (driver op wrapDesc: the description read back from to_string equals the "
-             "model's wrapped value, named probes + a long-description stream). h5_* / h12_width_boundary state the other description findings. "
+             "model's wrapped value, named probes + a long-description stream); rewrapped_description_fixpoint (wrapped lines that FIT are printed the "
+             "same way again: the text is a fixpoint from the first round) with h12_not_a_fixpoint (refuted for an unbreakable word longer than the width), "
+             "and at SCHEMA level printSchemaT_rewrap_invariant / print_schema_text_parses_rewrapped / text_roundtrip_rewrapped: the text theorems WITHOUT the "
+             "width clause - the printed text of a schema with over-long description lines parses to, and builds, the RE-WRAPPED schema (rewrapSchema), whose "
+             "text is the same. include_introspection at TEXT level: SdlPrintTA.printSchemaXTA, tied to the String model for all four options by "
+             "printSchemaXTA_eq_printSchemaX (+ _default: no hypothesis when no directive application is printed) and runHistoryX_texts. "
+             "h5_* / h12_width_boundary state the other description findings. "
              "Every history also runs in ONE forked child and every call alone in a fresh child; direct oracles dump(build(to_string(s))) == dump(s), "
              "fixpoint, parser accepts, root names differing only by case, non-root types named Query/Mutation/Subscription, exotic strings, look-alike "
              "numeric ID defaults, description edge cases."),
     "note": ("Trusted: Lean kernel; generators; the library constants of include_introspection are re-read, not modelled. The text-level theorems do not cover "
-             "include_introspection=True (its library descriptions are re-wrapped: finding H12, and its output is not rebuildable: C12/1); the PARSE half "
-             "for re-wrapped descriptions is proved per description (wrapped_description_lexes), not yet composed into a whole-schema theorem for "
-             "include_introspection. Known findings H2, H5, H6, H8, H12, C12/1, C12/5, C12/6, C12/7 (see known_findings.json). "
+             "include_introspection=True (its library descriptions are re-wrapped: finding H12, and its output is not rebuildable: C12/1); for include_introspection=True "
+             "the whole-schema PARSE theorem is not composed (the specified directives are printed first and unsorted, outside the print-order core "
+             "lemma); its text is the Text model's (printSchemaXTA_eq_printSchemaX) and each of its re-wrapped descriptions lexes to one block string "
+             "(wrapped_description_lexes). Known findings H2, H5, H6, H8, H12, C12/1, C12/5, C12/6, C12/7 (see known_findings.json). "
              "Repaired: H1, H3, H9, H11."),
     "technique": ("Lean 4 proof (printer purity over call histories and all options, document- and text-level round trip with applied directives, "
                   "builder blind to custom applications, equality of the two printer models, re-wrapped descriptions lex to one block string) + exact-text correspondence of the printer models + fresh-process reference + round-trip oracle"),
